@@ -491,9 +491,8 @@ def _mask(ctx) -> None:
                     keyt = x[2]
             if keyt is None:
                 continue
-            conds = [c for c, pol in flatten_conds(st.ev.conds) if pol]
-            is_mask = any(c[0] == "cmp" and c[1] == "Eq" and any(y == ("name", "bool") for y in subterms(c)) for c in conds) or \
-                any(c[0] == "cmp" and c[1] == "Eq" and c[3] == ("set", (("name", "bool"),)) for c in conds)
+            conds = [x for c, pol in flatten_conds(st.ev.conds) if pol for x in subterms(c)]      # (also inside an `or` of two mask forms)
+            is_mask = any(c[0] == "cmp" and c[1] == "Eq" and any(y == ("name", "bool") for y in subterms(c)) for c in conds)
             if is_mask:
                 masks.append((st, keyt))
     bad_masks = []
@@ -603,15 +602,44 @@ def _name_forms(prog):
             return ("IDX",)
         return tuple(norm(x, name) for x in t)
 
-    def forms(events, name):
+    def atoms_of(conds):
+        for c, pol in flatten_conds(conds):
+            if pol:
+                yield c
+
+    def forms(events, name, loops_of_interest=None):
+        """normalised  <column expr> == <name expr>  atoms under which something is selected: from the path conditions of the events
+        and from the hit conditions of search loops (first-match scans, evaluated in line); `x in (a, b)` counts as x == a, x == b"""
         out = set()
+        pool = []
         for e in events:
-            for c, pol in flatten_conds(e.conds):
-                if pol and c[0] == "cmp" and c[1] == "Eq":
-                    n = norm(c, name)
-                    if any(x == ("NAME",) for x in _walk(n)) and any(x == ("COL",) or x == ("IDX",) for x in _walk(n)):
-                        a, b = n[2], n[3]
-                        out.add(("Eq",) + tuple(sorted((a, b), key=repr)))
+            pool += list(atoms_of(e.conds))
+            for L in e.loops:
+                for fc in it.loops[L].found:
+                    pool += list(atoms_of(fc))
+            for t in _walk(e.term):
+                if isinstance(t, tuple) and t and t[0] == "first" and t[1] in it.loops:
+                    for fc in it.loops[t[1]].found:
+                        pool += list(atoms_of(fc))
+        for c in pool:
+            pairs = []
+            if c[0] == "cmp" and c[1] == "Eq":
+                pairs.append((c[2], c[3]))
+            elif c[0] == "cmp" and c[1] == "In":
+                # x in (a, b) / x in (<tuple> if c else <tuple>): every candidate of every alternative
+                stack = [c[3]]
+                while stack:
+                    r = stack.pop()
+                    if r[0] == "ifexp":
+                        stack += [r[2], r[3]]
+                    elif r[0] == "tuple":
+                        pairs += [(c[2], x) for x in r[1]]
+            for a, b in pairs:
+                na, nb = norm(a, name), norm(b, name)
+                w = list(_walk(na)) + list(_walk(nb))
+                if na == ("NAME",) or nb == ("NAME",) or any(x == ("NAME",) for x in w):
+                    if any(x == ("COL",) or x == ("IDX",) for x in w):
+                        out.add(("Eq",) + tuple(sorted((na, nb), key=repr)))
         return out
     # single name
     KEY = None
@@ -626,11 +654,11 @@ def _name_forms(prog):
             break
     if KEY is None:
         raise AnalysisError("Table.__getitem__: string-key branch not found")
-    single = forms([e for e in it.events if e.kind == "return" and (lit, True) in flatten_conds(e.conds)], KEY)
+    single = forms([e for e in it.events if e.kind in ("return", "raise") and (lit, True) in flatten_conds(e.conds)], KEY)
     mit, Ln, rc, els = multi_name_selection(prog)
     name = ("elem", mit.loops[Ln].iter, Ln)
     # the multi-name interpreter is another Interp of the same function: loop ids agree (deterministic)
-    multi = forms(els, name)
+    multi = forms([e for e in it.events if Ln in e.loops and e.kind in ("elem", "call", "raise", "return")], name)
     return single, multi
 
 
